@@ -345,3 +345,128 @@ def check_named(F, rep):
     if wrong:
         probs.append("entries pointing at another constant: %s" % wrong[:4])
     rep.ob("NAMED", "map-entries", not probs, "; ".join(probs) if probs else "%d entries: name -> constant UPPER(name), lower-case, unique" % len(entries), F.loc(mp[0]))
+
+    check_named_lookup(F, rep, keys)
+
+
+def _concrete(F, e, name, consts):
+    """Evaluate a small boolean / integer expression over the string parameter for one concrete key. None = not understood."""
+    k = e.get("k")
+    if k == "block" and not e.get("s") and e.get("e"):
+        return _concrete(F, e["e"], name, consts)
+    if k in ("paren", "dropt", "use"):
+        return _concrete(F, e["e"], name, consts)
+    if k == "lit":
+        lk = e["lit"]["lk"]
+        if lk == "int":
+            return int(e["lit"]["v"])
+        if lk == "bool":
+            return bool(e["lit"]["v"])
+        return None
+    if k == "path":
+        r = e.get("res", {})
+        if r.get("k") == "def" and str(r.get("dk", "")).startswith("Const"):
+            return consts(r)
+        return None
+    if k == "mcall":
+        recv = e.get("r", {})
+        is_param = recv.get("k") == "path" and recv.get("res", {}).get("k") == "local" and recv["res"].get("n") == "__PARAM__"
+        if recv.get("k") == "path" and recv.get("res", {}).get("k") == "local" and recv["res"].get("h") == consts.param_h:
+            n = e.get("n")
+            if n == "len" and not e.get("a"):
+                return len(name.encode())
+            if n == "is_empty" and not e.get("a"):
+                return len(name) == 0
+            if n == "is_ascii" and not e.get("a"):
+                return all(ord(ch) < 128 for ch in name)
+        return None
+    if k == "un" and e.get("op") == "!":
+        v = _concrete(F, e["e"], name, consts)
+        return None if v is None else (not v)
+    if k == "bin":
+        a, b = (_concrete(F, x, name, consts) for x in e["a"])
+        if a is None or b is None:
+            return None
+        op = e.get("op")
+        table = {"<": a < b, "<=": a <= b, ">": a > b, ">=": a >= b, "==": a == b, "!=": a != b, "&&": bool(a) and bool(b), "||": bool(a) or bool(b)}
+        if op in table:
+            return table[op]
+        if op == "+":
+            return a + b
+        if op == "-":
+            return a - b
+        return None
+    return None
+
+
+def check_named_lookup(F, rep, keys):
+    """NAMED-LOOKUP: `named::from_str` is the table lookup for every name in the table: its value is `COLORS.get(name)` (copied), and any
+    early-out in front of the lookup is evaluated, for each of the table's keys (a finite set), and must let every key through."""
+    bs = [b for b in F.bodies if b["path"] == "named::from_str"]
+    if len(bs) != 1:
+        rep.fail("ANCHOR", "named::from_str", "function not found (%d)" % len(bs))
+        return
+    b = bs[0]
+    S = Session(F)
+
+    class Consts:
+        param_h = (b.get("params") or [{}])[0].get("h")
+
+        def __call__(self, r):
+            c = r.get("c") if isinstance(r.get("c"), dict) else {}
+            if re.fullmatch(r"-?\d+", str(c.get("v", ""))):
+                return int(c["v"])   # the compiler's own evaluation of the constant
+            try:
+                cb = F.body_by_id.get(c.get("i", r.get("i")))
+                v, _ = S.eval(cb)
+                return int(v.const_value()) if isinstance(v, RatFunc) and v.is_const() else None
+            except Exception:
+                return None
+    consts = Consts()
+    problems = []
+    # 1. the value of the body: COLORS.get(param) then copied()/cloned()
+    tail = b["body"]
+    while isinstance(tail, dict) and tail.get("k") == "block" and tail.get("e"):
+        tail = tail["e"]
+    ok_tail = False
+    if tail.get("k") == "mcall" and tail.get("n") in ("copied", "cloned"):
+        g = tail.get("r", {})
+        if g.get("k") == "mcall" and g.get("n") == "get":
+            r0 = g.get("r", {})
+            a0 = (g.get("a") or [{}])[0]
+            ok_tail = (r0.get("k") == "path" and r0.get("res", {}).get("k") == "def" and F.S[r0["res"]["d"]].endswith("COLORS")
+                       and a0.get("k") == "path" and a0.get("res", {}).get("h") == consts.param_h)
+    if not ok_tail:
+        problems.append("the value of the body is not `COLORS.get(name).copied()`")
+    # 2. early exits: each must be `if <cond over name> { return None }` with cond false for every key of the table
+    n_filters = 0
+    for node, parents in facts.walk(b["body"]):
+        if node.get("k") != "ret":
+            continue
+        n_filters += 1
+        iff = None
+        chain = list(parents) + [node]
+        for par, ch in zip(chain, chain[1:]):
+            if par.get("k") == "if":
+                inside_then = any(x is node for x, _p in facts.walk(par.get("th")))
+                inside_else = "el" in par and any(x is node for x, _p in facts.walk(par.get("el")))
+                iff = (par, inside_then, inside_else)
+        if iff is None:
+            problems.append("unconditional early return at line %s" % node.get("l"))
+            continue
+        par, in_then, in_else = iff
+        cut = []
+        undecided = False
+        for key in keys:
+            v = _concrete(F, par["c"], key, consts)
+            if v is None:
+                undecided = True
+                break
+            if (v and in_then) or ((not v) and in_else):
+                cut.append(key)
+        if undecided:
+            problems.append("early return at line %s under a condition the rule cannot evaluate on the table's keys" % node.get("l"))
+        elif cut:
+            problems.append("early return at line %s rejects %d name(s) that are in the table: %s" % (node.get("l"), len(cut), cut[:4]))
+    rep.ob("NAMED-LOOKUP", "named::from_str", not problems, "; ".join(problems) if problems else
+           "COLORS.get(name).copied(); %d early-out(s), none rejects any of the %d keys" % (n_filters, len(keys)), F.loc(b))
